@@ -216,25 +216,64 @@ pub fn run_history(h: &History, out: &mut dyn Write, with_phys: bool, hist_no: u
     run_history_impl(h, out, with_phys, hist_no).0
 }
 
+/// set when a command of the code under test did not return within the watchdog's patience: the thread that
+/// runs it is lost, the process must end after flushing what it has
+pub static HUNG: std::sync::atomic::AtomicBool = std::sync::atomic::AtomicBool::new(false);
+
+/// The history runs in a worker thread that sends every event as it happens; this thread writes them out and
+/// keeps watch: a command that does not return within 12 s is logged as a `hang` event (a verdict for the trace
+/// spec, not a harness failure).
 fn run_history_impl(h: &History, out: &mut dyn Write, with_phys: bool, hist_no: usize) -> (usize, Value) {
+    let (tx, rx) = std::sync::mpsc::channel::<(bool, Value)>();
+    let h2 = h.clone();
+    std::thread::spawn(move || {
+        let state = history_worker(&h2, with_phys, hist_no, &tx);
+        let _ = tx.send((true, state));
+    });
+    let mut events = 0;
+    let mut last = json!({});
+    loop {
+        match rx.recv_timeout(std::time::Duration::from_secs(12)) {
+            Ok((true, state)) => return (events, state),
+            Ok((false, ev)) => {
+                if ev["e"] == "begin" {
+                    last = ev;
+                    continue;
+                }
+                writeln!(out, "{}", ev).unwrap();
+                events += 1;
+            }
+            Err(_) => {
+                let mut ev = last.clone();
+                ev["e"] = json!("hang");
+                writeln!(out, "{}", ev).unwrap();
+                HUNG.store(true, Ordering::SeqCst);
+                return (events + 1, json!([]));
+            }
+        }
+    }
+}
+
+fn history_worker(h: &History, with_phys: bool, hist_no: usize, tx: &std::sync::mpsc::Sender<(bool, Value)>) -> Value {
     let mut sut = Sut::new(&h.cfg.policy, h.cfg.mem_limit, h.cfg.item_limit);
     let mut tokens = Tokens::default();
-    let mut events = 0;
     let reset = json!({"e": "reset", "h": hist_no, "name": h.name, "obs": true, "phys": with_phys,
         "cfg": {"policy": h.cfg.policy, "L": std::cmp::min(h.cfg.mem_limit, 1 << 30), "limit": h.cfg.item_limit},
         "keys": h.keys.iter().map(|k| hex(k)).collect::<Vec<_>>()});
-    writeln!(out, "{}", reset).unwrap();
-    events += 1;
+    let _ = tx.send((false, reset));
     for s in &h.steps {
         match s {
             Step::Tick(t) => {
                 sut.timer.now.store(*t, Ordering::SeqCst);
-                writeln!(out, "{}", json!({"e": "tick", "to": t})).unwrap();
+                let _ = tx.send((false, json!({"e": "tick", "to": t})));
             }
             Step::Cmd(c) => {
                 let cas = tokens.concretise(&c.key, &c.cas);
                 let fr = frame_of(c, cas);
                 let mut ev = cmd_event(c, cas, &fr);
+                let mut b = ev.clone();
+                b["e"] = json!("begin");
+                let _ = tx.send((false, b));
                 let (dec, resp, panicked) = sut.exchange(&fr.bytes());
                 let rs = parse_responses(&resp);
                 tokens.learn(&c.key, &rs);
@@ -248,10 +287,9 @@ fn run_history_impl(h: &History, out: &mut dyn Write, with_phys: bool, hist_no: 
                 o.insert("usage".into(), json!(sut.usage()));
                 o.insert("ctr".into(), json!(sut.mem.verif_cas_counter().to_string()));
                 o.insert("phys".into(), json!(phys));
-                writeln!(out, "{}", ev).unwrap();
+                let _ = tx.send((false, ev));
             }
         }
-        events += 1;
     }
     // live items at the end: what a client could still read (expired ones are not items any more)
     let now = sut.timer.now.load(Ordering::SeqCst);
@@ -259,5 +297,5 @@ fn run_history_impl(h: &History, out: &mut dyn Write, with_phys: bool, hist_no: 
     snap.sort_by(|a, b| a.0.cmp(&b.0));
     let state: Vec<Value> = snap.iter().filter(|(_, ts, _, _, ttl, _)| *ttl == 0 || ts + (*ttl as u64) > now)
         .map(|(k, ts, _cas, f, ttl, v)| json!({"k": hex(k), "v": hex(v), "f": f.to_string(), "dl": if *ttl == 0 { 0 } else { ts + *ttl as u64 }})).collect();
-    (events, json!(state))
+    json!(state)
 }
